@@ -195,7 +195,11 @@ func runC05(b *runner.Batch) {
 			o.signers, o.alpha, o.sdesc = alpha, true, "alphabet"
 		}
 		reused := false
-		if o.kind == "putnamed" && o.name == "" {
+		if o.kind == "putnamed" && r.IntN(10) == 0 {
+			o.nullName, o.name = true, ""
+			b.Hit("putNamed-with-a-null-name")
+		}
+		if o.kind == "putnamed" && o.name == "" && !o.nullName {
 			b.Hit("putNamed-without-a-name")
 			if o.zone != "" {
 				b.Hit("putNamed-without-a-name-with-a-zone")
